@@ -121,7 +121,7 @@ func TestC01(t *testing.T) {
 	ev.Begin("C01",
 		"rapid: well-formed DAG programs of 1..12 nodes built from a typed value pool over 1..3 graph inputs (rank-2, NCHW, NCL and sequence inputs) and generated initializers, using elementwise/comparison/logic operators, Gemm, MatMul, Flatten, Reshape, Transpose, Squeeze/Unsqueeze, Concat (also single-input), Softmax, ReduceMax/Min, ArgMax, Gather, Shape, Cast, Constant, ConstantOfShape, Conv, RNN/GRU/LSTM, Expand, PRelu, Scaler, LinearRegressor; forced features: fan-out, fan-in, repeated operator types with different attributes, optional inputs skipped as \"\", multi-output nodes with arbitrary / permuted documented output names, omitted trailing and skipped outputs, an initializer that is also a graph input (supplied by the caller or not), nodes emitted in a drawn topological order; every intermediate value is declared as graph output. "+
 			"Non-trivial = >= 3 nodes and at least one of {fan-out, repeated op type with different attributes, multi-output node with non-documented names, skipped optional input, initializer-as-input}. Distinct = (inputs, node list with attributes and wiring).",
-		"oracle: independent evaluator (own environment, fresh operator per node, deep-copied inputs, positional binding) sharing gonnx's operator kernels but none of model.go; results compared exactly (NaN = NaN)")
+		"oracle: independent evaluator (own environment, fresh operator per node, deep-copied inputs, positional binding) sharing gonnx's operator kernels but none of model.go; integer/bool results compared exactly, float results up to rounding (1e-5 relative per node: the assembly dot-product kernels round differently depending on operand alignment); discontinuous operators are only applied to values not downstream of such kernels")
 	defer reportKnownFindings("C01")
 
 	check(t, "graphs", 3000, 20000, func(rt *rapid.T) {
@@ -193,7 +193,9 @@ func TestC01(t *testing.T) {
 			if o == nil {
 				rt.Fatalf("C01 violated: declared output %q is nil without an error: %v", name, gg)
 			}
-			if d := sameValues(o, ref.env[name]); d != "" {
+			// float values downstream of a dot-product kernel are reproducible only up to rounding
+			// (alignment-dependent assembly kernels): 1e-5 relative per node of depth
+			if d := approxSame(o, ref.env[name], 1e-5*float64(len(gg.nodes)+1)); d != "" {
 				rt.Fatalf("C01 violated: output %q differs from the dataflow value: %s\n%v", name, d, gg)
 			}
 		}
